@@ -54,14 +54,42 @@ private:
             // naked types, they have no direct members
             return {};
         }
+        // members inherited from `required_base`/`optional_base` count as
+        // well because a class with the same name hides them
         else if(t.presence == field_presence::required)
         {
-            return {"min_value", "max_value"};
+            return {
+                "value_type", "value", "in_range", "min_value", "max_value"};
         }
         else
         {
-            return {"min_value", "max_value", "null_value"};
+            return {
+                "value_type",
+                "value",
+                "in_range",
+                "min_value",
+                "max_value",
+                "value_or",
+                "has_value",
+                "null_value"};
         }
+    }
+
+    // a group class with the same name as a public member of its base class
+    // (`flat_group_base`/`nested_group_base`) hides that member
+    static bool is_group_base_member_name(const std::string& name)
+    {
+        static const std::unordered_set<std::string> names{
+            "value_type",     "reference",       "sbe_size_type",
+            "size_type",      "difference_type", "iterator",
+            "cursor_range_t", "cursor_iterator", "sbe_size",
+            "size",           "resize",          "max_size",
+            "empty",          "clear",           "begin",
+            "end",            "front",           "back",
+            "cursor_range",   "cursor_subrange", "cursor_begin",
+            "cursor_end"};
+
+        return names.count(name);
     }
 
     static std::unordered_set<std::string>
@@ -338,7 +366,9 @@ private:
                || entry_members.count(entry_name)
                // group name should not clash with entry members because their
                // tags are located directly within the group's one
-               || entry_members.count(g.name))
+               || entry_members.count(g.name)
+               // group class should not hide members of its base class
+               || is_group_base_member_name(g.name))
             {
                 const auto mangled_group_info = make_mangled_group_info(
                     g.name,
